@@ -108,6 +108,20 @@ _TF_NAMES = ["none", "identity", "linfin", "lininf", "exp", "power"] + 2 * ["bec
 
 
 def _dec_tf(g, increasing_only=False):
+    d = _dec_tf_unit(g, increasing_only)
+    # a quarter of the forward (non-inverted) maps get a very small length scale: the problem in x is unchanged, the
+    # solver variable r and all derivatives d^k r/dx^k shrink by the same factor (1e-3 .. 1e-9); nothing may be treated
+    # as "zero" because it is small in absolute terms
+    sc = g.pick([1.0, 1.0, 1.0, 1e-3, 1e-6, 1e-9]) if d["kind"] in ("exp", "power", "becke", "knowles", "handy", "multiexp") and not d.get("inv") else 1.0
+    if sc != 1.0:
+        for key in ("rmin", "rmax", "R"):
+            if key in d:
+                d[key] = d[key] * sc
+        d["scaled"] = sc
+    return d
+
+
+def _dec_tf_unit(g, increasing_only=False):
     names = [k for k in _TF_NAMES if not (increasing_only and k == "multiexp")]
     kind = g.pick(names)
     if kind == "none":
@@ -500,6 +514,13 @@ def _pinned_ivp():
     out.append(dict(base, order=1, coefs=c2[1:], tf={"kind": "lininf", "inv": True, "rmin": 0.2, "rmax": 3.0, "b": 5.0}, method="RK45"))
     # the library's own usage pattern: Poisson radial equation direction (backward, inverse Becke)
     out.append(dict(base, order=2, coefs=c2, tf={"kind": "becke", "inv": True, "rmin": 0.0, "R": 1.5}, method="DOP853", backward=True))
+    # transforms of a very small length scale: r, dr/dx, d2r/dx2 ... are all ~1e-7..1e-10 in absolute terms, far from
+    # zero in relative terms - every chain-rule term still matters for the returned derivatives (third order)
+    for tf in ({"kind": "exp", "inv": False, "rmin": 1e-7, "rmax": 10.0, "b": 100.0},
+               {"kind": "power", "inv": False, "rmin": 1e-9, "rmax": 10.0, "b": 100.0},
+               {"kind": "becke", "inv": False, "rmin": 0.0, "R": 1e-10}):
+        for order, coefs in ((3, c3), (2, c2)):
+            out.append(dict(base, order=order, coefs=coefs, tf=tf, method="DOP853", tol=1e-10))
     return out
 
 
